@@ -1109,6 +1109,162 @@ def directed_rings():
     return out
 
 
+def directed_varfields():
+    """C01 / C17: a field read through an object variable with >= 2 candidate instances (`o.w`: var_item::get -> core::new_enum) where
+    the field is a genuine VARIABLE of the candidates (`real w;` / `int n;` without initialiser, only bounded by constraints in the
+    constructor or at top level: same bound in all instances, different bounds, one constant and the others variable); 2-4 instances;
+    the object variable is a declared existential, an unassigned predicate parameter or a goal argument; constraints on `o.w` of every
+    comparison kind against constants and against other reads `p.w`, combined with constraints on `inst_k.w` so that only some choices
+    of o are consistent, and UNSAT-by-construction twins (no instance can meet what `o.w` demands). `o.w` means the w of the instance
+    o takes in the solution. Returns (program, text, expected) with expected in 'sat' / 'unsat'."""
+    out = []
+    R = lambda v: num(v, False)
+    I = lambda v: num(v, True)
+    # W: a bare real member; WB(lo): member bounded from below in the constructor; WN: int member and real member with a common bound
+    W = {'name': 'W', 'kind': 'class', 'supers': [], 'fields': [('w', 'real', None)], 'ctors': []}
+    WB = {'name': 'WB', 'kind': 'class', 'supers': [], 'fields': [('w', 'real', None)],
+          'ctors': [{'params': [('lo', 'real')], 'supers': [], 'inits': [], 'body': [('expr', ('ge', var('w'), var('lo')))]}]}
+    WN = {'name': 'WN', 'kind': 'class', 'supers': [], 'fields': [('n', 'int', None), ('w', 'real', None)],
+          'ctors': [{'params': [], 'supers': [], 'inits': [], 'body': [('expr', ('ge', var('w'), R(1))), ('expr', ('ge', var('n'), I(0))), ('expr', ('le', var('n'), I(20)))]}]}
+    use = {'name': 'Use', 'owner': None, 'params': [('o', ('ref', 'W'))], 'supers': [], 'body': [('expr', ('ge', var('o', 'w'), R(6)))]}
+    use2 = {'name': 'Use2', 'owner': None, 'params': [('o', ('ref', 'W')), ('lim', 'real')], 'supers': [],
+            'body': [('expr', ('lt', var('o', 'w'), var('lim'))), ('formula', False, 'u', [], 'Use3', [('p', var('o'))])]}
+    use3 = {'name': 'Use3', 'owner': None, 'params': [('p', ('ref', 'W'))], 'supers': [], 'body': [('expr', ('ne', var('p', 'w'), R(2)))]}
+
+    def box(name, lo, hi):
+        st = []
+        if lo is not None:
+            st.append(('expr', ('ge', var(name, 'w'), R(lo))))
+        if hi is not None:
+            st.append(('expr', ('le', var(name, 'w'), R(hi))))
+        return st
+    cases = []
+    # --- bare members, boxes at top level: i0 in [0,2], i1 in [4,6], i2 in [8,10], (i3 == 12 constant) -------------------------------
+    for ninst in (2, 3, 4):
+        inst = [('new', 'W', 'i%d' % k, []) for k in range(ninst)]
+        boxes = []
+        for k in range(ninst):
+            boxes += [('expr', ('eq', var('i3', 'w'), R(12)))] if k == 3 else box('i%d' % k, 4 * k, 4 * k + 2)
+        O = [('local', ('ref', 'W'), 'o', None)]
+        top = 4 * (ninst - 1) + 2 if ninst < 4 else 12
+        demands = [
+            (('ge', var('o', 'w'), R(top - 1)), 'sat'), (('gt', var('o', 'w'), R(top)), 'unsat'),
+            (('le', var('o', 'w'), R(1)), 'sat'), (('lt', var('o', 'w'), R(0)), 'unsat'),
+            (('eq', var('o', 'w'), R(5)), 'sat'), (('eq', var('o', 'w'), R(3)), 'unsat'),
+            (('ne', var('o', 'w'), var('i0', 'w')), 'sat'),
+            (('gt', var('o', 'w'), ('add', [var('i0', 'w'), R(1)])), 'sat'),
+            (('lt', var('o', 'w'), ('sub', [var('i0', 'w'), R(3)])), 'unsat'),
+        ]
+        for j, (d, exp) in enumerate(demands):
+            order = (j + ninst) % 3
+            # the boxes before / after the variable and its constraint
+            main = inst + (boxes + O + [('expr', d)] if order == 0 else O + [('expr', d)] + boxes if order == 1 else O + boxes + [('expr', d)])
+            cases.append(([W], [], main, exp))
+        # the demand is met by exactly one instance, which is then excluded (unsatisfiable), or another one is excluded (satisfiable):
+        # a read that does not follow the choice (a constant, a fresh unlinked variable) lets the planner pick a wrong instance
+        last = ninst - 1
+        uniq = [(('le', var('o', 'w'), R(1)), 0), (('ge', var('o', 'w'), R(top - 1)), last), (('eq', var('o', 'w'), R(5)), 1),
+                (('lt', var('o', 'w'), R(3)), 0), (('gt', var('o', 'w'), R(4 * last - 1)), last)]
+        for j, (d, only) in enumerate(uniq):
+            other = (only + 1) % ninst
+            pre = inst + boxes + O if j % 2 else inst + O + boxes
+            cases.append(([W], [], pre + [('expr', d), ('expr', ('ne', var('o'), var('i%d' % only)))], 'unsat'))
+            cases.append(([W], [], pre + [('expr', ('ne', var('o'), var('i%d' % other))), ('expr', d)], 'sat'))
+        # two variables compared through their fields
+        cases.append(([W], [], inst + boxes + O + [('local', ('ref', 'W'), 'p', None), ('expr', ('gt', var('o', 'w'), ('add', [var('p', 'w'), R(3)]))),
+                                                   ('expr', ('ge', var('p', 'w'), R(3)))], 'sat' if ninst >= 3 else 'unsat'))
+        cases.append(([W], [], inst + O + [('local', ('ref', 'W'), 'p', None), ('expr', ('eq', var('o', 'w'), var('p', 'w'))), ('expr', ('ne', var('o'), var('p')))] + boxes, 'unsat'))
+        cases.append(([W], [], inst + O + [('local', ('ref', 'W'), 'p', None), ('expr', ('lt', var('o', 'w'), var('p', 'w'))), ('expr', ('ne', var('p'), var('i%d' % (ninst - 1))))] + boxes,
+                      'sat' if ninst >= 3 else 'unsat'))
+        # the demand fixes the choice, a direct constraint on that instance then contradicts / agrees
+        cases.append(([W], [], inst + boxes + O + [('expr', ('ge', var('o', 'w'), R(4))), ('expr', ('le', var('o', 'w'), R(6))), ('expr', ('eq', var('i1', 'w'), R(5))), ('expr', ('ne', var('o', 'w'), R(5)))], 'unsat'))
+        cases.append(([W], [], inst + boxes + O + [('expr', ('ge', var('o', 'w'), R(4))), ('expr', ('le', var('o', 'w'), R(6))), ('expr', ('eq', ('mul', [var('o', 'w'), I(2)]), R(9)))], 'sat'))
+    # --- unbounded members: only the demand and one direct constraint --------------------------------------------------------------
+    inst = [('new', 'W', 'i0', []), ('new', 'W', 'i1', []), ('new', 'W', 'i2', [])]
+    O = [('local', ('ref', 'W'), 'o', None)]
+    cases.append(([W], [], inst + O + [('expr', ('ge', var('o', 'w'), R(7))), ('expr', ('le', var('i0', 'w'), R(1))), ('expr', ('le', var('i1', 'w'), R(1)))], 'sat'))
+    cases.append(([W], [], inst + O + [('expr', ('ge', var('o', 'w'), R(7)))] + [('expr', ('le', var('i%d' % k, 'w'), R(1))) for k in range(3)], 'unsat'))
+    cases.append(([W], [], inst + O + [('expr', ('eq', var('o', 'w'), ('add', [var('i0', 'w'), R(1)]))), ('expr', ('eq', var('i1', 'w'), var('i0', 'w'))), ('expr', ('eq', var('i2', 'w'), var('i0', 'w')))], 'unsat'))
+    cases.append(([W], [], inst + O + [('expr', ('eq', var('o', 'w'), ('add', [var('i0', 'w'), R(1)]))), ('expr', ('eq', var('i1', 'w'), var('i0', 'w')))], 'sat'))
+    # --- bounds posted by the constructor: same bound / different bounds ---------------------------------------------------------------
+    for los, tag in (((1, 1, 1), 'same'), ((1, 5, 9), 'diff')):
+        inst = [('new', 'WB', 'b%d' % k, [R(lo)]) for k, lo in enumerate(los)]
+        O = [('local', ('ref', 'WB'), 'o', None)]
+        caps = [('expr', ('le', var('b%d' % k, 'w'), R(lo + 2))) for k, lo in enumerate(los)]
+        cases.append(([WB], [], inst + O + [('expr', ('le', var('o', 'w'), R(0)))], 'unsat'))
+        cases.append(([WB], [], inst + O + [('expr', ('le', var('o', 'w'), R(2)))] + caps, 'sat'))
+        cases.append(([WB], [], inst + caps + O + [('expr', ('gt', var('o', 'w'), R(los[2] + 2)))], 'unsat'))
+        cases.append(([WB], [], inst + caps + O + [('expr', ('ge', var('o', 'w'), R(los[2] + 1)))], 'sat'))
+        cases.append(([WB], [], inst + O + [('expr', ('eq', var('o', 'w'), R(los[1] + 1)))] + caps + [('expr', ('ne', var('o'), var('b1')))], 'sat' if tag == 'same' else 'unsat'))
+    # --- int member -----------------------------------------------------------------------------------------------------------------
+    inst = [('new', 'WN', 'n%d' % k, []) for k in range(3)]
+    O = [('local', ('ref', 'WN'), 'o', None)]
+    pins = [('expr', ('eq', var('n0', 'n'), I(3))), ('expr', ('ge', var('n1', 'n'), I(10))), ('expr', ('le', var('n2', 'n'), I(1)))]
+    cases.append(([WN], [], inst + pins + O + [('expr', ('ge', var('o', 'n'), I(4))), ('expr', ('le', var('o', 'w'), R(1)))], 'sat'))
+    cases.append(([WN], [], inst + O + [('expr', ('eq', var('o', 'n'), I(2)))] + pins, 'unsat'))
+    cases.append(([WN], [], inst + O + [('expr', ('eq', ('add', [var('o', 'n'), var('o', 'w')]), R(4))), ('expr', ('ne', var('o'), var('n0'))), ('expr', ('ne', var('o'), var('n2')))] + pins, 'unsat'))
+    cases.append(([WN], [], inst + O + [('expr', ('eq', ('add', [var('o', 'n'), var('o', 'w')]), R(4))), ('expr', ('ne', var('o'), var('n0')))] + pins, 'sat'))
+    cases.append(([WN], [], inst + pins + O + [('expr', ('lt', var('o', 'w'), R(1)))], 'unsat'))
+    # --- the object variable is a predicate parameter / a goal argument -------------------------------------------------------------------
+    inst = [('new', 'W', 'i%d' % k, []) for k in range(3)]
+    boxes = box('i0', 0, 2) + box('i1', 4, 6) + box('i2', 8, 10)
+    preds = [use, use2, use3]
+    cases.append(([W], preds, inst + boxes + [('formula', False, 'g', [], 'Use', [])], 'sat'))
+    cases.append(([W], preds, inst + [('formula', False, 'g', [], 'Use', [])] + box('i0', 0, 2) + box('i1', 4, 5) + box('i2', 3, 5), 'unsat'))
+    cases.append(([W], preds, inst + boxes + [('local', ('ref', 'W'), 'o', None), ('formula', False, 'g', [], 'Use', [('o', var('o'))]), ('expr', ('ne', var('o'), var('i2'))), ('expr', ('ne', var('o'), var('i1')))], 'unsat'))
+    cases.append(([W], preds, inst + boxes + [('local', ('ref', 'W'), 'o', None), ('formula', False, 'g', [], 'Use', [('o', var('o'))]), ('expr', ('ne', var('o'), var('i2')))], 'sat'))
+    cases.append(([W], preds, inst + boxes + [('formula', False, 'g', [], 'Use2', [('lim', R(5))])], 'sat'))
+    cases.append(([W], preds, inst + boxes + [('formula', False, 'g', [], 'Use2', [('lim', R(5))]), ('expr', ('eq', var('i0', 'w'), R(2))), ('expr', ('ne', var('g', 'o'), var('i1')))], 'unsat'))
+    cases.append(([W], preds, inst + boxes + [('formula', True, 'g', [], 'Use', []), ('expr', ('le', var('g', 'o', 'w'), R(1)))], 'sat'))
+    cases.append(([W], preds, inst + boxes + [('formula', False, 'g', [], 'Use', []), ('expr', ('le', var('g', 'o', 'w'), R(5)))], 'unsat'))
+    cases.append(([W], preds, inst + boxes + [('formula', False, 'g', [], 'Use', []), ('expr', ('le', var('g', 'o', 'w'), R(7)))], 'sat'))
+    # --- the read happens when the bounds of the members are already known to the arithmetic theory: inside a rule body (executed
+    #     during solve()) and in a second read() after a solve() (incremental) ----------------------------------------------------------
+    def subst(e, frm, to):
+        if e[0] == 'id':
+            return ('id', (to + list(e[1][1:])) if e[1][0] == frm else list(e[1]))
+        if e[0] in ('bool', 'num', 'str'):
+            return e
+        if e[0] in ('neg', 'not'):
+            return (e[0], subst(e[1], frm, to))
+        if e[0] in ('lt', 'le', 'ge', 'gt', 'eq', 'ne', 'imp'):
+            return (e[0], subst(e[1], frm, to), subst(e[2], frm, to))
+        return (e[0], [subst(x, frm, to) for x in e[1]])
+    late = []
+    for ninst in (2, 3):
+        inst = [('new', 'W', 'i%d' % k, []) for k in range(ninst)]
+        boxes = []
+        for k in range(ninst):
+            boxes += box('i%d' % k, 4 * k, 4 * k + 2)
+        last, top = ninst - 1, 4 * (ninst - 1) + 2
+        dem = [(('le', var('o', 'w'), R(1)), 0), (('ge', var('o', 'w'), R(top - 1)), last), (('eq', var('o', 'w'), R(5)), 1),
+               (('lt', var('o', 'w'), R(3)), 0), (('gt', var('o', 'w'), R(4 * last - 1)), last),
+               (('ne', var('o', 'w'), var('i0', 'w')), None), (('ge', var('o', 'w'), ('add', [var('i0', 'w'), R(2)])), None)]
+        for j, (d, only) in enumerate(dem):
+            variants = [([], 'sat')]
+            if only is not None:
+                variants += [([('expr', ('ne', var('o'), var('i%d' % only)))], 'unsat'), ([('expr', ('ne', var('o'), var('i%d' % ((only + 1) % ninst))))], 'sat')]
+            else:
+                variants += [([('expr', ('ne', var('o'), var('i%d' % last)))], 'sat' if ninst == 3 else 'unsat')]
+            for extras, exp in variants:
+                # rule body: the object variable is the (unassigned) parameter of a goal
+                dp = {'name': 'Dem', 'owner': None, 'params': [('o', ('ref', 'W'))], 'supers': [], 'body': [('expr', d)]}
+                main = inst + boxes + [('formula', False, 'g', [], 'Dem', [])] + [('expr', subst(x[1], 'o', ['g', 'o'])) for x in extras]
+                late.append(([W], [dp], main, None, exp))
+                # incremental: instances and boxes, solve(), back to root level (as the executor does), then the variable and the demand
+                if (j + ninst) % 2 == 0:
+                    p1 = {'classes': [W], 'preds': [], 'main': inst + boxes}
+                    m2 = [('local', ('ref', 'W'), 'o', None), ('expr', d)] + extras
+                    late.append(([W], [], inst + boxes + m2, [A.pp_program(p1), "-pop", A.pp_program({'classes': [], 'preds': [], 'main': m2})], exp))
+    for classes, preds, main, exp in cases:
+        prog = {'classes': classes, 'preds': preds, 'main': main}
+        out.append((prog, A.pp_program(prog), exp))
+    for classes, preds, main, texts, exp in late:
+        prog = {'classes': classes, 'preds': preds, 'main': main}
+        out.append((prog, texts if texts is not None else A.pp_program(prog), exp))
+    return out
+
+
 def directed_temporal():
     """Problems aimed at each conjunct of the temporal rules: on a correct planner they are unsolvable; if one of the
     constraints of Interval / Impulse is lost they become solvable with an ill-formed active atom (which the checker rejects)."""
